@@ -30,6 +30,14 @@ CLAIMS = {
          'TLC checks SnapshotIsImage, CrossDBIConsistent and TimeNotBeforeContent for every placement of application commits (also between two entries and with the application holding the write lock when SendOnce is called); each interleaving is forced on the real SendOnce with the harness acting as the application, and the decoded blob must equal the raw content recorded for exactly the pinned transaction (two DBIs with different flags, 511-byte and integer keys, empty and 128 kB values, extension blocks, markers), carry no private DBI, and name database, instance and a strictly increasing time.',
          'Two DBIs, <=3 application commits, <=2 dumps per behaviour; monotone wall clock; values up to 128 kB (megabyte values only in the thorough tier).',
          'DESIGN.md section 5 C06'),
+ 'C07': ('TLA+ spec Wire (schema as field grammar, content under re-encodings); TLC checks re-encoding invariance and exports variants; each variant as real protobuf bytes through the hand-written codec and the generated reference codec, both directions',
+         'TLC checks on the grammar model that the content of a message is invariant under field permutations (repeated fields in order), unknown fields of every wire type at every nesting level, repeated scalars and split embedded messages; every exported variant is written as real bytes with length classes 0..2^21 and must decode to the specified content with the custom and with the reference codec; every distinct content is re-encoded by the custom encoder (several pre-allocations, growth-boundary sweep) and read back by the reference codec and through LoadData(DumpData(x)).',
+         '3 base messages, single-site re-encodings; keys 1..511 bytes and DBI names <= 511 bytes (LMDB content); bytes inside a class generated from the token.',
+         'DESIGN.md section 5 C07'),
+ 'C08': ('TLA+ specs Wire (hostile encodings must be rejected) and Receiver (corrupt blobs ignored, others still delivered); hostile rows + exhaustive single-position byte mutations fed to LoadData under watchdog and allocation ceiling; real Receiver scenarios with corrupt blobs',
+         'Every hostile row of the grammar and every single-position mutation (truncation, 6 byte values, 8 adversarial varints up to 2^64-1) of small valid messages plus seeded garbage and corrupt gzip containers is decoded and fully iterated under a 10 s watchdog, panic recovery and an allocation ceiling; real receivers with free-running goroutines must deliver the newest decodable snapshot of every instance with corrupt blobs in random positions (also more corrupt blobs than tokens) and return all tokens.',
+         'Time/memory bounds are measured, not proved; mutations are exhaustive only for three small base messages (thorough: twelve).',
+         'DESIGN.md section 5 C08'),
  'C09': ('TLA+ spec LSLoop; TLC exhaustive + simulation incl. Store failures; behaviours replayed through the real stepped loop; PublishedWhenIdle evaluated on the decoded newest own blob',
          'TLC checks PublishedWhenIdle for every placement of application commits and every number of failing Store calls up to the retry budget; on the real loop the newest own blob is decoded at every idle point and must cover every application commit the harness made up to the LastTxnID the loop read. The empty-transaction window counterexample is replayed on the real code and reported as a known finding.',
          'Bounds as C03; "idle" = the loop reached its sleep and is not waiting for its own old snapshot (DESIGN.md section 7).',
@@ -46,6 +54,22 @@ CLAIMS = {
          'TLC checks KeepsYoung, KeepsNewest, FailSafe, Bounded and NeverEmptiesLive for every evolution of the listing, clock schedule, commit notification and failing call within the bounds; every simulated behaviour with a cleaning run is replayed on the real Worker with RunOnce(ctx, now) and the set of blobs after each step must equal the specification state; foreign files (other databases incl. a name-prefix neighbour, unparsable names, other kinds) must never be touched; a receive-only Syncer is observed to perform no Store and no Delete.',
          '2 instances, <=2-3 snapshots each, clock 1..5(6), MustKeep in {0,1,2}, RemoveOld in {1,2,3}; snapshots of an instance appear in timestamp order (property text).',
          'DESIGN.md section 5 C12'),
+ 'C14': ('TLA+ spec Header (layout, Parse/Skip outcomes, what LS writes); rows as raw bytes through header.Parse/Skip/Bytes/PutBasic against an independent reader; well-formedness monitor over every value the real iterator writes for the whole Merge table and every stored value in protocol replays',
+         'Every shape row (length, version, flags, extension count incl. 8191/8192/65535, truncation) is concretised and parsed by the real code and by an independent reader written from the schema document; every value written by the real NativeIterator for all rows of the TLC-evaluated Merge table (incl. unknown flag bits, padding option) and every raw value found in native/shadow DBIs after every step of protocol replays is checked: version 0, only synced flags, reserved bytes zero, extension count, transaction id of the writing transaction, empty value when deleted.',
+         'Payload bytes, timestamps and transaction ids inside a class are seeded samples.',
+         'DESIGN.md section 5 C14'),
+ 'C15': ('TLA+ spec Names (character-level Build/Parse, sanitiser, listing prefix); TLC checks the laws and exports structured names; rows concretised through ParseName/BuildName, the real instanceID(), seeded timestamps in several zones',
+         'TLC checks round trip, sanitised-name safety, cross-database prefix and exact re-build over all structured names of <=5 parts; every row is concretised (letters/digits, NUL, invalid UTF-8, multi-byte runes, timestamps 1970..2262) and must parse/re-build exactly as specified; 3000 seeded timestamps in UTC and two fixed zones must round-trip and sort byte-wise in chronological order.',
+         'Breadth over real strings and timestamps comes from seeded sampling inside the abstract classes.',
+         'DESIGN.md section 5 C15'),
+ 'C16': ('TLA+ spec Receiver (listing loop, downloaders, token pools, consumer) checked by TLC incl. liveness under fairness; TLC trace validation (ReceiverTrace) of recorded runs of the real Receiver with real goroutines; free-running delivery and run-once scenarios',
+         'TLC checks TokensAccounted, IgnoredForGood, DeliversDecodable and the liveness property Delivered; the real Receiver is driven by seeded random external actions behind a gated bucket, its observable state is recorded after every action and every recorded trace must be a behaviour of the specification (silent downloader steps), with the invariants evaluated on it; run-once mode must end only after every instance present at start-up was merged.',
+         'Observation after the goroutines settled (9 ms stable); 3 instances, limits 1/2 in validation; fault counts bounded in the liveness model.',
+         'DESIGN.md section 5 C16'),
+ 'C20': ('TLA+ spec DupSort with the real constants; TLC checks round trip/legal length/refusal/order and exports all single pairs and two-pair contents; rows on the real helpers and a sample through a real mirror cycle on an MDB_DUPSORT DBI',
+         'Every pair of the pools and every ordered two-pair content is run through the real EncodeOne/DecodeOne/Encode/Decode (verif wrappers) and must be accepted or refused exactly as specified with strictly increasing, decodable keys; sampled contents go through SendOnce, a fresh shadow receiver, re-merge of the own snapshot, a remote deletion and a native receiver (which must refuse).',
+         'Pools of 9 key and 14 value shapes built from bytes {0,1,7,255}; empty-value duplicates are subject to the known finding F3.',
+         'DESIGN.md section 5 C20'),
  'C19': ('TLA+ spec Strategy (loop state machines of Update/IterUpdate/EmptyPut checked against a map reference by TLC); every case replayed on a real LMDB with a scripted iterator under 7 key concretisations',
          'TLC checks every terminal state of the three loop machines against the reference over all stored contents x inputs x decisions; the exported cases are executed on a real LMDB through the real strategies with byte-ordered and MDB_INTEGERKEY keys, checking content, order, rejection of unsorted input and that the iterator was handed the stored value.',
          '4 abstract keys, inputs up to length 4 (unsorted up to 2, thorough 3); LMDB cursor semantics assumed as modelled.',
